@@ -133,7 +133,7 @@ CLAIMED.update({
               "pairs in bounds, advertised chunks = group sizes summing to len(idx), each output chunk between 1 and the largest input chunk; "
               "'each group ends in one chunk' (shuffle docstring) refuted. " + _TIE + " (basic: layer interpreted; take: route, indexer, "
               "_new_chunks, chunks and the plan read back from the real Shuffle layer compared exactly in Coq); other fancy paths (masks, dask "
-              "indices, vindex, blocks) by value against NumPy.", "49/C12", _TB + "no array-value model for masks / dask-array indices / "
+              "indices, vindex, blocks) by value against NumPy. fam_element_kinds (scalar index kinds vs NumPy), fam_blocks_multi_list (several list-like block indices must be refused).", "49/C12", _TB + "no array-value model for masks / dask-array indices / "
               "vindex; the merge step's argsort of the take layer is replayed in the harness, not modelled.",
               "Coq proof over Gallina models (basic indexing + take) + exact plan correspondence"),
     "C20": _c("A recording block function placed by map_blocks between generated programs below and 0-3 ops above: every invocation's "
@@ -194,7 +194,7 @@ CLAIMED.update({
               "'flip = reversed chunks' refuted for zero-size chunks); plus the earlier per-axis theorems (C13/C15) and rewrite-keeps-chunks. "
               "Tie: for every node of every generated program Coq checks pchunks = the chunks dask_array advertises (the real .chunks of "
               "every node are the oracle table, checked well-formed in Coq); every advertised key of generated + directed + API-surface "
-              "programs is executed and each block's shape/dtype compared with .chunks/.dtype.",
+              "programs is executed and each block's shape/dtype compared with .chunks/.dtype. fam_dtype_rules: a dtype list x every percentile / quantile / nanquantile method x the reductions and ufuncs whose advertised dtype is a rule, and expand_dims with axis tuples in every order: blocks executed vs .chunks / .dtype.",
               "21/C03", _TB + "take, reshape, implicit rechunk specs and repeat > 3 are outside pchunks (checked by execution only); the unified "
               "layout is an oracle here (its decision layer is C17's model).", "Coq advertised-chunks rule for all programs + per-node tie + block-by-block execution check"),
     "C05": _c("Coq (coq/Properties/C05.v, 17 obligations): a model of FromGraph's key location (expected key / own key / unique covering "
@@ -224,7 +224,7 @@ CLAIMED.update({
               "still applies must be explained by one of the implementation's own gates, replayed: no-block-culled / shared-child / "
               "grid-contract), real rewrite and sweep counts <= mu, real result in `normal_forms raw`.  Exploration: programs that compute "
               "from their raw form must simplify/lower/fuse under a watchdog without error and be idempotent (simplify, lower, fuse, "
-              "optimize), incl. rechunk/concat/slice towers, nested unification above view-like nodes, empty selections, API-surface calls.",
+              "optimize), incl. rechunk/concat/slice towers, nested unification above view-like nodes, empty selections, API-surface calls. fam_demanding_kernels: window kernels that raise on blocks shorter than their window under map_overlap (one- and two-sided depths, every boundary kind): a slice that computes unoptimized must compute optimized, to the same values.",
               "28/C08", _TB + "the three non-measure-decreasing rules (slice into FromArray, Transpose through Elemwise, Rechunk through "
               "Concatenate), lowering and fusion are covered by the watchdog / idempotence exploration only; the model strategy is not an exact "
               "mirror of Expr.simplify_once (normal forms are compared, not traces).",
@@ -248,7 +248,7 @@ CLAIMED.update({
               "real histories are replayed (object identity, cache sets, names) against the model; the seven outputs of the real "
               "parse_and_validate_assignment (or its exception) and the Alias / setitem-task arguments of the real SetItem layer are "
               "compared exactly with `parse` / `plan_obs`; after every step the target is compared with NumPy, every other collection "
-              "with its value at derivation (masked values included), keys with the current name.", "26/C11",
+              "with its value at derivation (masked values included), keys with the current name. out_where_family: ufunc out= / where= with expression operands (fused node), masks broadcasting through size-1 axes.", "26/C11",
               _TB + "the N-d lift of the denotation for touched blocks and the raw-to-parsed slice bridge are not proved (decided per case); "
               "boolean / dask-array indices are outside the plan model (histories compare them with NumPy).",
               "Coq mutation-history model + setitem plan model + exact plan correspondence + history exploration vs NumPy"),
@@ -308,7 +308,7 @@ CLAIMED.update({
               "h in Q and coordinate arrays (NumPy's non-uniform second-order formulas in Q), edge_order 1 and 2; the guard only rejects "
               "(without it the pipeline still equals NumPy wherever NumPy is defined); array_locs coordinate windows = block + halo.  Tie: "
               "real MapOverlap node (depth, boundary, chunks), block ids / kwargs recorded by wrapping _gradient_kernel, extended and trimmed "
-              "blocks and exact values compared with the model inside Coq; sliced results and several axes by value.", "38/C19",
+              "blocks and exact values compared with the model inside Coq; sliced results and several axes by value. fam_sliced_results (a slice of a windowed / scan result = that slice of the full result; directed near both ends for every boundary kind), fam_overlap_2d (depths on either / both axes, a boundary kind per axis, NumPy padded oracle), fam_sliding_multi_axis (several axes, repeated axis), fam_scan_variants (nancumsum / nancumprod, masked cumsum / cumprod).", "38/C19",
               _TB + "models are per axis (N-d = lanes along the axis); NumPy's shortcut for equally spaced coordinate arrays and the "
               "edge_order / varargs validation are not modelled; non-power-of-two spacings are compared within 1e-9 of the exact Q value.", "Coq proof over Gallina model + differential correspondence"),
 })
